@@ -316,7 +316,7 @@ void run_program(vh::Reader &rd, Env &e, ThreadResult &res, const std::string &l
         tr::SpanContext expected_parent = active;  // default: the active span (invalid if none)
         std::string form;
         int mechanisms = active.IsValid() ? 1 : 0;
-        switch (forced_none ? 0 : rd.weighted({4, 3, 2, 3, 2, 2}))
+        switch (forced_none ? 0 : rd.weighted({4, 3, 2, 3, 2, 2, 1}))
         {
           case 0:
             form = "none";
@@ -376,6 +376,19 @@ void run_program(vh::Reader &rd, Env &e, ThreadResult &res, const std::string &l
             form            = "Context{root}";
             res.tags.push_back("root-marker");
             ++mechanisms;
+            break;
+          }
+          case 6:
+          {
+            // the root marker present but FALSE (e.g. reset in a derived context), no span inside:
+            // not marked as root, so the active span is the parent
+            ctxn::Context cx;
+            if (rd.coin())
+              cx = cx.SetValue(tr::kIsRootSpanKey, true);
+            cx         = cx.SetValue(tr::kIsRootSpanKey, false);
+            opt.parent = cx;
+            form       = "Context{root=false}";
+            res.tags.push_back("root-marker-false");
             break;
           }
           default:
@@ -689,4 +702,44 @@ VH_TARGET(fork_ids, 1,
       VH_CHECK(c, mine.substr(i * 48 + 32, 16) != theirs.substr(j * 48 + 32, 16),
                "parent and forked child drew the same span id");
     }
+}
+
+VH_TARGET(thread_lifetimes, 1,
+          "threads with NON-overlapping lifetimes (thread-per-request: each starts after the previous one "
+          "was joined, so the OS typically recycles the thread id / stack) each start root spans with the "
+          "random id generator: all ids must be fresh; non-trivial always (2+ threads); distinct = distinct "
+          "(threads, spans per thread) pair")
+{
+  unsigned nthreads = 2 + c.rd.below(7);
+  unsigned per      = 1 + c.rd.below(3);
+  c.note("sequential-threads=" + std::to_string(nthreads) + " root-spans-each=" + std::to_string(per) + "\n");
+  c.nontrivial = true;
+  auto sink    = std::make_shared<Sink>();
+  std::unique_ptr<sdkt::SpanProcessor> proc(
+      new sdkt::SimpleSpanProcessor(std::unique_ptr<sdkt::SpanExporter>(new CaptureExporter(sink))));
+  auto provider = std::make_shared<sdkt::TracerProvider>(std::move(proc));
+  auto tracer   = provider->GetTracer("c05-lifetimes");
+  std::set<std::string> trace_ids, span_ids;
+  for (unsigned t = 0; t < nthreads; ++t)
+  {
+    std::vector<std::pair<std::string, std::string>> got;
+    std::thread th([&]() {
+      for (unsigned i = 0; i < per; ++i)
+      {
+        auto span = tracer->StartSpan("root");
+        auto cx   = span->GetContext();
+        got.emplace_back(sg::hex(cx.trace_id()), sg::hex(cx.span_id()));
+        span->End();
+      }
+    });
+    th.join();
+    for (auto &g : got)
+    {
+      VH_CHECK(c, trace_ids.insert(g.first).second, "thread #" << t << " (started after the previous one was joined) "
+                                                               << "started a new trace with a trace id that an earlier "
+                                                               << "thread already used: " << g.first);
+      VH_CHECK(c, span_ids.insert(g.second).second, "thread #" << t << " got a span id an earlier thread already had: "
+                                                               << g.second);
+    }
+  }
 }
